@@ -217,3 +217,29 @@ PROPS["C18"] = {
                   "FileSystemPackageResolver in both build configurations; outcome class and returned bytes must match the table.",
     "level_note": "The table is our reading of README.md and of the property statement; symlinks, permissions and non-UTF-8 names are out of scope.",
 }
+
+PROPS["C10"] = {
+    "shards": 16,
+    "quick_budget_s": 60,
+    "thorough_budget_s": 900,
+    "floors": {"any": {"plug:ok": 500, "plug:no-plug": 100, "plug:graph-error": 100, "plug:ok-with-semver-fallback": 50, "valid-outputs": 400}},
+    "rule": "Each case draws a WIT library (2-4 interfaces, value types only, always versioned: same track / other track / second "
+            "package), a socket world (imports: at most one interface per semver track + up to 3 plain functions with one of 4 "
+            "fixed signatures; exports: interfaces and a function) and an ordered list of 1-4 plug worlds whose exports are drawn "
+            "relative to the socket's imports: the same name, another version on the same track, the same function name with the "
+            "same or a different signature, unrelated names, or nothing matching; plugs may import things themselves. The real "
+            "components are built with wit-component and re-read by the independent decoder (wit-component drops unused imports "
+            "and adds `use` dependencies, and the model works on what the binaries really import/export). Model: per plug export, "
+            "exact name first, else the first socket import on the same track, and only if the export subsumes the import (names "
+            "and definitions) or the function signatures are identical; two offers for one import => GraphError, none => "
+            "NoPlugHappened, else the supplier map. After Ok: socket arguments = map, contributing plugs instantiated once, idle "
+            "plugs not at all, every socket export re-exported as alias of the socket instance, output valid (wasmparser), wiring "
+            "= graph (C02 decoder), unmatched socket imports still imported, plugged ones not. Non-trivial: Ok plugs; distinct by "
+            "(supplier shape, #plugs, #imports).",
+    "assumptions": ["later versions on a track are supersets by construction, so compatibility across versions is subsumption of names and definitions",
+                    "sockets never import two interfaces on one track (the statement is ambiguous there)"],
+    "technique": "runtime monitor: reference plug model (name / semver / type matrix) vs plug() result, graph queries, validator and independent decoder",
+    "level_text": "The whole name x version x type matrix of socket imports and plug exports is sampled and the model predicts success, the "
+                  "supplier of every import, ambiguity and no-match errors; outputs are validated and decoded.",
+    "level_note": "Resources are excluded from C10 libraries (their cross-interface identity is the subject of a recorded C01 finding).",
+}
